@@ -361,6 +361,10 @@ func (s *Service) Answer(r gqlReq) (map[string]interface{}, *ReqLog) {
 	lg.Declared = map[string]string{}
 	for _, vd := range op.VariableDefinitions {
 		lg.Declared[vd.Variable] = vd.Type.String()
+		if v, ok := r.Variables[vd.Variable]; ok {
+			// rendered with the declared type (key order of input objects)
+			lg.Passed[vd.Variable] = world.RenderArg(v, world.TypeRef{Name: vd.Type.Name()}, s.W)
+		}
 		if vd.DefaultValue != nil {
 			if v, err := vd.DefaultValue.Value(nil); err == nil {
 				lg.Defaults[vd.Variable] = world.RenderArg(v, world.TypeRef{Name: vd.Type.Name()}, s.W)
